@@ -185,17 +185,38 @@ def run(tier, seed, replay=None):
         n, fx, parts, s1, sn, got = fc
         body = f'({C.cnat(n)}, {kcs(fx)}, {C.clist([kcs(p) for p in parts])}, {kcs(s1)}, {kcs(sn)}, {kcs(got)})'
         jobs.append((f'c07_f_{j}', ('f', j), hdr + f'Definition c : feed_case := {body}.\nEval vm_compute in (bad_indices [feed_agrees c]).\n'))
+    # the candle-generation helper, called directly: lengths that are and are not multiples of the timeframe
+    from . import engine as E_
+    import numpy as np_
+    from jesse.services import candle as candle_service
+    helper_cases, helper_err = [], []
+    for (tfh, nh) in [('5m', 17), ('3m', 10), ('15m', 50), ('45m', 100), ('1h', 130), ('5m', 20), ('2h', 250), ('30m', 61), ('3m', 2), ('15m', 15)]:
+        csh = E_.gen_candles(rng, nh)
+        try:
+            goth = [list(map(float, r_)) for r_ in candle_service._get_generated_candles(tfh, np_.array(csh))]
+            helper_cases.append((TFM[tfh], csh, goth, tfh))
+        except Exception as ex_:
+            helper_err.append({'timeframe': tfh, 'length': nh, 'error': type(ex_).__name__ + ': ' + str(ex_)[:150]})
+    for j, hc in enumerate(helper_cases):
+        jobs.append((f'c07_h_{j}', ('h', j), hdr + f'Definition c : view_case := ({C.cnat(hc[0])}, {kcs(hc[1])}, {kcs(hc[2])}).\nEval vm_compute in (bad_indices [helper_is_aggregation c]).\n'))
     outs = C.coq_eval_many([(j[0], j[2]) for j in jobs], timeout=1500)
-    bad_view, bad_feed, errs = [], [], []
+    bad_view, bad_feed, errs, bad_helper = [], [], [], []
     for j, (rc, out) in zip(jobs, outs):
         r = C.parse_results(out)
         if rc != 0 or len(r) != 1:
             errs.append(out[-800:]); continue
-        if j[1][0] == 'v':
+        if j[1][0] == 'h':
+            if C.parse_nat_list(r[0]): bad_helper.append(j[1][1])
+        elif j[1][0] == 'v':
             bad_view += [keep[j[1][1] + k] for k in C.parse_nat_list(r[0])]
         elif C.parse_nat_list(r[0]):
             bad_feed.append(j[1][1])
     res.oblige('C07 case files evaluated', not errs, '\n'.join(errs[:3]))
+    res.oblige('the candle-generation helper ran on series whose length is not a multiple of the timeframe', not helper_err, json.dumps(helper_err[:2]))
+    for j in bad_helper[:1]:
+        hc = helper_cases[j]
+        res.violation('generated_candles_are_not_the_aggregation_of_their_windows', 'services.candle._get_generated_candles returns candles that are not the aggregation of the aligned '
+                      'windows of the 1m candles it was given', {'timeframe': hc[3], 'one_minute_candles': hc[1], 'returned': hc[2]})
     res.oblige('correspondence: Model/CandleView.step_minute/publish_partial/get_candles = real stores and view after real sessions (normal simulator)',
                not bad_feed, str([(feed_cases[i][0], len(feed_cases[i][1])) for i in bad_feed[:3]]))
     res.oblige('sessions ran without an engine error', not [e for e in errors if 'Insufficient' not in e['error'] and 'InvalidStrategy' not in e['error']],
